@@ -442,6 +442,35 @@ let reg_run (line : string) : string =
       | _ -> failwith ("reg-run: bad op " ^ sec)) (List.tl secs) in
   String.concat " ; " out
 
+(* ---------- address histories (see harness/cmd/h_addr/main.go) ---------- *)
+let addr_run (line : string) : string =
+  let st = ref svc_init in
+  let w = ref { w_files = []; w_open = [] } in
+  let show = function OOk -> "ok" | OErr -> "err" | OPanic -> "panic" in
+  let outs = List.map (fun sec ->
+      match fields sec with
+      | "bind" :: ok :: a :: _ ->
+        let ((r, st'), w') = svc_bind (ok = "1") (bytes_of_hex a) !st !w in
+        st := st'; w := w'; show r
+      | "start" :: _ ->
+        if !st.sv_running then "already" else (let (r, st') = svc_start !st in st := st'; show r)
+      | "listen" :: ok :: a :: _ ->
+        if !st.sv_running then "already"
+        else begin
+          (* Listen = Bind, then the accept loop; a failed Bind returns through the deferred teardown *)
+          let ((r, st'), w') = svc_bind (ok = "1") (bytes_of_hex a) !st !w in
+          match r with
+          | OOk -> let (r2, st2) = svc_start st' in st := st2; w := w'; show r2
+          | _ -> show r      (* a refused Listen leaves the service as it was *)
+        end
+      | "stop" :: _ ->
+        if !st.sv_running then (let (st', w') = svc_stop !st !w in st := st'; w := w'; "stopped") else "notrunning"
+      | "connect" :: a :: _ -> show (client_connect (bytes_of_hex a) !st !w)
+      | "exists" :: p :: _ -> if List.mem (bytes_of_hex p) !w.w_files then "1" else "0"
+      | "stale" :: p :: _ -> w := { !w with w_files = bytes_of_hex p :: remove_file (bytes_of_hex p) !w.w_files }; "done"
+      | _ -> failwith ("addr-run: bad op " ^ sec)) (split_on_string " | " line) in
+  String.concat " " outs
+
 let split_ws (l : string) : string list =
   List.filter (fun x -> x <> "") (String.split_on_char ' ' l)
 
@@ -483,6 +512,20 @@ let handle (cmd : string) (line : string) : string =
      | SRefused what -> "REFUSED " ^ hex_of_bytes what ^ " -"
      | SMarshalErr -> "ERR -"
      | SSent msg -> hex_of_bytes msg)
+  | "cli-run", [flags; m; d; nrecv; chunks] ->
+    (match client_send (n_of_int (int_of_string flags)) (bytes_of_hex m) (parse_value_desc d) with
+     | SRefused what -> "send=refused:" ^ hex_of_bytes what ^ " wrote=-"
+     | SMarshalErr -> "send=marshal wrote=-"
+     | SSent msg ->
+       let chs = if chunks = "-" then [] else List.filter (fun c -> c <> []) (List.map bytes_of_hex (String.split_on_char ',' chunks)) in
+       let c = ref { rbuf = []; chunks = chs } in
+       let outs = ref ["send=ok wrote=" ^ hex_of_bytes msg] in
+       for _ = 1 to int_of_string nrecv do
+         let (r, c') = client_receive (nat_of_int 4096) !c in
+         c := c';
+         outs := ("recv=" ^ show_recv r) :: !outs
+       done;
+       String.concat " ; " (List.rev !outs))
   | "wire-run", cap :: chunks :: ops -> wire_run (int_of_string cap) chunks ops
   | _ -> failwith ("bad case for " ^ cmd ^ ": " ^ line)
 
@@ -491,6 +534,7 @@ let handle_line (cmd : string) (line : string) : string =
   | "svc-run" -> svc_run line
   | "e2e-run" -> e2e_run line
   | "reg-run" -> reg_run line
+  | "addr-run" -> addr_run line
   | _ -> handle cmd line
 
 let () =
